@@ -12,5 +12,6 @@ CONSTANTS
   ScsSids <- SidClasses
   ReaderScsAnySid = TRUE
   LazyFlushTypes = {3}
+  NoSharedState = TRUE
 INVARIANTS AllDelivered
 CHECK_DEADLOCK FALSE
